@@ -37,6 +37,10 @@ INLINE = [
 
 SPECFUNCS = {
     'closed': (['s'], 's._Connection__s_notls is None'),
+    # C14: the keepalive timer is re-armed only by sending (the emitted-message trace only grows)
+    'ka_kept': (['s'], 'length(ghost.trace) >= length(old(ghost.trace)) and '
+                       'implies(length(ghost.trace) == length(old(ghost.trace)) and not closed(s), '
+                       'eqv(s._keepalive_timer_id, old(s._keepalive_timer_id)))'),
     'START': ([], '2'),
     'END': ([], '1'),
     # ---- RFC 9174 output automaton (independent oracle for C04) ----------
